@@ -265,6 +265,12 @@ def gen_programs(ck, thorough, keys):
         for seq in (0xffffffff, 0xfffffffe, 0, 5, 0x400005, 0x80000005, 0x00400000 | 3):
             for ver in (1, 2):
                 env = {'sequence': seq, 'locktime': lock, 'version': ver}
+                # operands longer than 4 bytes: non-minimal 5-byte numbers, bit 31 set (CSV disable flag), >= 2^32, negative,
+                # and items longer than 5 bytes (a hash, 6 bytes)
+                for raw5 in (b'\x05\x00\x00\x00\x00', b'\x00\x00\x00\x80\x00', b'\x05\x00\x00\x80\x00', b'\x00\x00\x00\x00\x01',
+                             b'\x05\x00\x00\x00\x80', b'\x00\x00\x00\x00\x80', ref.hash160(b'x'), b'\x01\x00\x00\x00\x00\x00'):
+                    progs.append(([raw5, 177], env, ('cltv-long', len(raw5)), None))
+                    progs.append(([raw5, 178], env, ('csv-long', len(raw5), raw5[3] >= 128), None))
                 for opnd in (0, 1, 5, 6, 100, 0x400003, 0x400006, 499999999, 500000000, 1500000000, -1):
                     if abs(opnd) < 2 ** 31:
                         progs.append(([push(ref_num(opnd)), 177], env, ('cltv', lock >= 500000000, seq == 0xffffffff, opnd < 0), None))
